@@ -20,6 +20,14 @@ DIM = {'Cp': ('CpoR', 'kJ/mol/K', False), 'H': ('HoRT', 'kJ/mol', True), 'S': ('
 PHASES = (None, 'S', 'G')
 
 
+def temps(items):
+    """an array of temperatures as the caller hands it over (its element type is the caller's)"""
+    arr = ListV(list(items))
+    arr.is_array = True
+    arr.dtype = 'caller'
+    return arr
+
+
 def species_obj(I, repo, kind, misc, phase=None, add=None, tag='', nseg=1, more=None):
     """a species built by its PUBLIC constructor (every attribute has the value the constructor gives it, the defaults
     included); returns the object and the coefficient vectors the rule handed over.  tag: a second species of the same
@@ -83,7 +91,14 @@ def module_function(repo, modname, fname):
 def _bare(I, repo, kind, co, q, T, hi):
     def call(modname, fname, kw):
         m, fn = module_function(repo, modname, fname)
-        return I.call_function(m, fn, [], kw)
+        try:
+            r = I.call_function(m, fn, [], kw)
+        except _RaisedExc as e:
+            r = e.raised
+        if isinstance(r, Raised):
+            # the polynomial itself is C02's subject; without its value there is nothing to add the models to
+            raise Unsupported('%s.%s raises %s for the model coefficients' % (modname, fname, r.exc))
+        return r
     if kind == 'Nasa':
         f = lambda qq: call(NASA, 'get_nasa_' + qq, {'a': co['hi' if hi else 'lo'], 'T': T})
     elif kind == 'Nasa9':
@@ -105,7 +120,7 @@ def ranks(n):
     r = {'sp.T_low': 1, 'sp.T_mid': 50, 'sp.T_high': 90, 'seg0.T_low': 1, 'seg0.T_high': 90, 'seg1.T_high': 90, 'T': 10,
          'Tu': 60, 'Td': 5, 'Tn': Fr(1, 2), 'Tx': 95}
     for i in range(n):
-        r['T%d' % i] = 10 + i
+        r['T%d' % i] = 10 + Fr(i, 2)        # up to 50 values below T_mid
     return r
 
 
@@ -137,7 +152,7 @@ def summation(run, repo, max_len, thorough=False):
           for k in ((2, 0, 1, 3)[:4 if max_len > 3 else 3] if q in QS else (2,)):
            # quick: every phase with two models on the dimensionless getters, one phase (rotating) otherwise
            for phase in (PHASES if thorough or (k == 2 and q in QS) else (PHASES[(qi + k) % 3],)):
-            I = Interp(repo, order=RankOrder(ranks(max_len)))
+            I = Interp(repo, order=RankOrder(ranks(50 if thorough else max_len)))
             D = I.D
             P, x = D.sym('P'), D.sym('x')
             models = attached_models(I, k, params=('T', 'P', 'x'))
@@ -148,7 +163,7 @@ def summation(run, repo, max_len, thorough=False):
             # two sites) - every other instance leaves them at their defaults
             more = None
             if k == 1:
-                more = {'model': fitted_model(I), 'n_sites': C(2)}
+                more = {'model': fitted_model(I), 'n_sites': C(2), 'elements': DictV({'H': C(2), 'O': C(1)})}
                 if kind == 'Nasa':
                     more['cat_site'] = Obj('site')
             # a NASA-9 species of two segments that meet at sp.T_mid (one segment: real_models, numeric_pressure)
@@ -188,7 +203,7 @@ def summation(run, repo, max_len, thorough=False):
                 return dimless(q, Tv, hi)
             # scalar
             T = D.sym('T')
-            got = flat(I.call_method(o, 'get_' + q, [], dict({'T': T, 'P': P, 'x': x}, **extra)))
+            got = flat(ask(I, o, 'get_' + q, dict({'T': T, 'P': P, 'x': x}, **extra)))
             run.check(same(got, want_at(T)), 'BRANCH-TWIN.scalar', con, 'scalar T' + tag,
                       'value at a scalar temperature is %s, expected %sthe bare polynomial plus the sum over every '
                       'attached model at the same T and conditions%s' % (show(got, 200), dimtxt, owntxt),
@@ -201,11 +216,12 @@ def summation(run, repo, max_len, thorough=False):
             # arrays
             bad = None
             # quick: the two extra phases of the two-model instance with an array of two temperatures only
-            for L in (range(1, max_len + 1) if thorough or phase is None or k != 2 else (2,)):
+            # thorough: the longest array of the quantifier (50 temperatures) once per species class and getter
+            long_ = (50,) if thorough and k == 2 and phase is None and q in QS else ()
+            for L in (tuple(range(1, max_len + 1)) + long_ if thorough or phase is None or k != 2 else (2,)):
                 Ts = [D.sym('T%d' % i) for i in range(L)]
-                arr = ListV(list(Ts))
-                arr.is_array = True
-                got = I.call_method(o, 'get_' + q, [], dict({'T': arr, 'P': P, 'x': x}, **extra))
+                arr = temps(Ts)
+                got = ask(I, o, 'get_' + q, dict({'T': arr, 'P': P, 'x': x}, **extra))
                 if L == 1 and isinstance(got, (Rat, SumV)):
                     got = ListV([got])
                 ok = isinstance(got, ListV) and len(got) == L and \
@@ -219,14 +235,13 @@ def summation(run, repo, max_len, thorough=False):
                 # temperatures in no order, one of them twice, on both sides of T_mid (a NASA-7 species answers the
                 # upper one from its high-temperature coefficients); the upper one as a scalar as well
                 Tu, Td = D.sym('Tu'), D.sym('Td')
-                got = flat(I.call_method(o, 'get_' + q, [], dict({'T': Tu, 'P': P, 'x': x}, **extra)))
+                got = flat(ask(I, o, 'get_' + q, dict({'T': Tu, 'P': P, 'x': x}, **extra)))
                 run.check(same(got, want_at(Tu, True)), 'BRANCH-TWIN.scalar', con, 'scalar T above T_mid' + tag,
                           'value at a scalar temperature in the upper range is %s, expected %sthe bare polynomial '
                           '(high-temperature coefficients) plus the sum over every attached model at the same T and '
                           'conditions%s' % (show(got, 200), dimtxt, owntxt), owner.module, fn)
-                arr = ListV([Tu, Td, Tu])
-                arr.is_array = True
-                got = I.call_method(o, 'get_' + q, [], dict({'T': arr, 'P': P, 'x': x}, **extra))
+                arr = temps([Tu, Td, Tu])
+                got = ask(I, o, 'get_' + q, dict({'T': arr, 'P': P, 'x': x}, **extra))
                 ok = isinstance(got, ListV) and len(got) == 3 and \
                     all(same(flat(g), want_at(t, h)) for g, t, h in zip(got.items, (Tu, Td, Tu), (True, False, True)))
                 run.check(ok, 'BRANCH-TWIN.array', con, 'unordered array T' + tag,
@@ -247,8 +262,7 @@ def summation(run, repo, max_len, thorough=False):
                           'value at the temperature two ranges share is %s, expected %sthe bare polynomial of one of the '
                           'two ranges plus the sum over every attached model, once, at the same T and conditions%s'
                           % (show(got, 200), dimtxt, owntxt), owner.module, fn)
-                arr = ListV([Td, Tb, Tu, Tb])
-                arr.is_array = True
+                arr = temps([Td, Tb, Tu, Tb])
                 got = ask(I, o, 'get_' + q, dict({'T': arr, 'P': P, 'x': x}, **extra))
                 ok = isinstance(got, ListV) and len(got) == 4 and \
                     same(flat(got.items[0]), want_at(Td)) and same(flat(got.items[2]), want_at(Tu, True)) and \
@@ -274,8 +288,7 @@ def summation(run, repo, max_len, thorough=False):
                               'plus the sum over every attached model at the same T and conditions%s'
                               % (where, held, show(got, 200), dimtxt, owntxt), owner.module, fn)
                     n += 1
-                arr = ListV([T0, Tx, Tn])
-                arr.is_array = True
+                arr = temps([T0, Tx, Tn])
                 got = ask(I, o, 'get_' + q, dict({'T': arr, 'P': P, 'x': x}, **extra))
                 ok = isinstance(got, Raised) or (isinstance(got, ListV) and len(got) == 3 and all(
                     same(flat(g), want_at(t, h)) for g, t, h in zip(got.items, (T0, Tx, Tn), (False, True, False))))
@@ -456,14 +469,24 @@ def constructors(run, repo, thorough):
             owner, fn = repo.find_method(ci, mname)
             run.fn(owner.qual + '.' + mname)
             con = '%s.%s' % (kind, mname)
-            for phase, form, add in (CTOR_CASES if thorough or route == '__init__' else CTOR_CASES[1:6]):
+            # quick: from_data / from_model with four gas cases, a surface species and a species without phase
+            for phase, form, add in (CTOR_CASES if thorough or route == '__init__' else CTOR_CASES[1:4] + CTOR_CASES[5:]):
                 I = Interp(repo, order=RankOrder({'len<vec>': 1000, 'cp': 1, 'Tm': 3, 'T_ref': 2, 'T_low': 1,
                                                   'T_high': 9}, const_ranks=True, fallback=fallback, witness=True))
                 fitmodel.install(I)
                 D = I.D
                 fr = Frame(I, repo.module('pmutt'), {}, None, None)
                 # the grid a constructor lays between T_low and T_high: a data vector like the one handed to from_data
-                I.native['numpy.linspace'] = lambda I_, fr_, a_, k_, n_: fitmodel.data_vector(I_, 'Tdata')
+                def grid(I_, fr_, a_, k_, n_):
+                    # np.linspace(start, stop, num, endpoint, retstep, dtype, axis): however the bounds and the number
+                    # of points are spelled, the grid is a data vector; what changes the kind of result is refused
+                    for nm_ in ('start', 'stop', 'num', 'endpoint'):
+                        k_.get(nm_)
+                    if len(a_) > 4 or k_.get('retstep') not in (None, False) or k_.get('axis') is not None or \
+                            k_.get('dtype') is not None:
+                        raise Unsupported('np.linspace with retstep / dtype / axis', n_)
+                    return fitmodel.data_vector(I_, 'Tdata')
+                I.native['numpy.linspace'] = grid
                 base_cat = I.native['numpy.concatenate']
 
                 def cat(I_, fr_, a_, k_, n_, base_cat=base_cat):
@@ -595,7 +618,7 @@ def real_models(run, repo, thorough=False):
             key += '' if phase is None else ', surface species' if phase == 'S' else ', gas species'
             for q in QS:
                 owner, fn = repo.find_method(o.ci, 'get_' + q)
-                got = I.call_method(o, 'get_' + q, [], {'T': T, 'P': P, 'x': x})
+                got = ask(I, o, 'get_' + q, {'T': T, 'P': P, 'x': x})
                 if isinstance(got, SumV):
                     got = got.scalar + got.elem if got.elem.iszero() else got
                 run.check(same(got, exp[q]), 'REF.corrections', '%s.get_%s' % (kind, q), key,
@@ -632,7 +655,7 @@ def real_models(run, repo, thorough=False):
             for j in order_:
                 want = want + D.sym('k0' + j) * D.sym('x' + j) / (Rk * T)
             owner, fn = repo.find_method(o.ci, 'get_HoRT')
-            got = I.call_method(o, 'get_HoRT', [], dict({'T': T, 'P': P}, **blocks))
+            got = ask(I, o, 'get_HoRT', dict({'T': T, 'P': P}, **blocks))
             if isinstance(got, SumV):
                 got = got.scalar + got.elem if got.elem.iszero() else got
             run.check(same(got, want), 'REF.corrections', '%s.get_HoRT' % kind,
@@ -687,8 +710,7 @@ def histories(run, repo, thorough=False):
                 owner, fn = repo.find_method(o.ci, 'get_' + q)
                 kw = {'T': Ts, 'P': P}
                 if isinstance(Ts, list):
-                    kw['T'] = ListV(list(Ts))
-                    kw['T'].is_array = True
+                    kw['T'] = temps(Ts)
                 if x is not None:
                     kw['x'] = x
                 for name_j, xj in (blocks or {}).items():
@@ -786,15 +808,14 @@ def numeric_pressure(run, repo):
                 owner, fn = repo.find_method(o.ci, 'get_' + q)
                 for p_ in PRESSURES:
                     want = lambda Tv: bare(I, repo, kind, co, q, Tv) + C(sgn) * D.ln(C(p_))
-                    got = I.call_method(o, 'get_' + q, [], {'T': T, 'P': C(p_)})
+                    got = ask(I, o, 'get_' + q, {'T': T, 'P': C(p_)})
                     if isinstance(got, SumV):
                         got = got.scalar + got.elem if got.elem.iszero() else got
                     ok = same(got, want(T))
                     if ok and p_ in PRESSURES[1:4]:
                         Ts = [D.sym('T0'), D.sym('T1')]
-                        arr = ListV(list(Ts))
-                        arr.is_array = True
-                        got = I.call_method(o, 'get_' + q, [], {'T': arr, 'P': C(p_)})
+                        arr = temps(Ts)
+                        got = ask(I, o, 'get_' + q, {'T': arr, 'P': C(p_)})
                         ok = isinstance(got, ListV) and len(got) == 2 and \
                             all(same(g.scalar + g.elem if isinstance(g, SumV) and g.elem.iszero() else g, want(t))
                                 for g, t in zip(got.items, Ts))
@@ -848,24 +869,31 @@ def reload_path(run, repo):
             try:
                 obj = adj_ahead(I, label.split('[')[0])
             except _RaisedExc as e:
-                raise Problem('constructor of %s raises %s' % (label, e.raised.exc))
+                raise Unsupported('the constructor of the model species %s raises %s' % (label, e.raised.exc))
             absolute = [gci, cci]        # what the species must carry before and after every cycle
         else:
-            bs = dict(builders(I, repo))
-            if label not in bs:
-                raise AnchorError('builder %s missing' % label)
-            obj = bs[label]()
+            try:
+                bs = dict(builders(I, repo))
+                if label not in bs:
+                    raise AnchorError('builder %s missing' % label)
+                obj = bs[label]()
+            except Problem as e:
+                # the fixture borrowed from C11 cannot be built on this tree: nothing to hold the reload against
+                raise Unsupported('the model species %s of the reload instance cannot be built (%s)' % (label, e))
         ci = obj.ci
         owner, fn = repo.find_method(ci, 'from_dict')
         run.fn(owner.qual + '.from_dict')
         cur = obj
         for cycle in (1, 2):
-            d = I.call_method(cur, 'to_dict', [], {})
+            d = ask(I, cur, 'to_dict', {})
             if not isinstance(d, DictV):
                 run.fail('TABLE.reload', ci.name + '.to_dict', 'cycle', 'to_dict fails in cycle %d (%s)'
                          % (cycle, show(d)), owner.module, fn)
                 break
-            new = I.call_function(owner.module, fn, [], {'json_obj': d}, self_obj=ci, owner=owner)
+            try:
+                new = I.call_function(owner.module, fn, [], {'json_obj': d}, self_obj=ci, owner=owner)
+            except _RaisedExc as e:
+                new = e.raised
             if not isinstance(new, Obj):
                 run.fail('TABLE.reload', ci.name + '.from_dict', 'cycle', 'from_dict(to_dict()) fails in cycle %d (%s)'
                          % (cycle, show(new)), owner.module, fn)
@@ -911,7 +939,7 @@ def check(run, repo):
         'an array of two temperatures. '
         '(a) The getters are interpreted abstractly with 0-3 attached models whose getters are '
         'uninterpreted and record their arguments (no models: misc_models not given at all / an empty list), through '
-        'the package\'s own aggregation: for scalar T and arrays of 1-3 (thorough 1-5) temperatures every element is '
+        'the package\'s own aggregation: for scalar T and arrays of 1-3 (thorough 1-5 and 50) temperatures every element is '
         'the bare polynomial plus the sum over all attached models evaluated at that element\'s temperature and the '
         'same conditions (a gas species adds its own - ln P to S); with two models also a scalar above T_mid and the '
         'array [Tu, Td, Tu] (unordered, one value twice, on both sides of T_mid: a NASA-7 species answers Tu from its '
@@ -919,7 +947,8 @@ def check(run, repo):
         'two segments that meet there; the polynomial of either range is accepted on the bound, the models count '
         'once), and temperatures below T_low and above T_high as scalars and in [T0, Tx, Tn] (bare polynomial of the '
         'nearest range plus the models, or an exception); the instance with one model is a species that was also '
-        'handed the model it was fitted to (model=, as from_model stores it), a catalyst site and n_sites=2; '
+        'handed the model it was fitted to (model=, as from_model stores it), a composition, a catalyst site and '
+        'n_sites=2; '
         '(b) with a real GasPressureAdj and a real PiecewiseCovEffect through the real '
         'aggregation, for 9 combinations of phase and models handed over (adjustment ahead of / behind the coverage '
         'effect on a phase-less, a surface and a gas species; a gas species handed only the coverage effect, nothing, '
